@@ -8,3 +8,7 @@ Print Assumptions C16_histogram.
 Theorem C16_terminates : C16_terminates_stmt.
 Proof. exact C16_terminates_proof. Qed.
 Print Assumptions C16_terminates.
+
+Theorem C16_correction : C16_correction_stmt.
+Proof. exact C16_correction_proof. Qed.
+Print Assumptions C16_correction.
